@@ -63,14 +63,14 @@ def mc_jobs(ck):
     thorough = [("2x2dn", 4), ("3x1dn", 4), ("3x2d", 4), ("live", 3), ("sil", 2)]
     jobs = quick + (thorough if ck.thorough else [])
     if os.environ.get("C12_BIG"):
-        jobs.append(("3x2", 16))
+        jobs.append(("3x2dn", 12))      # 14.0 M distinct states, ~8 min with 12 workers
     return jobs
 
 
 def run_mc(ck, job):
     name, workers = job
     res = ck.tlc_or_infra("LiteClient_MC", "mc/LiteClient_MC_%s.cfg" % name, workers=workers, timeout=3000, name="mc_" + name,
-                          heap_gb=12 if name == "3x2" else 5)
+                          heap_gb=10 if name.startswith("3x2dn") else 5)
     if not res.completed or res.left != 0:
         raise Infra("model checking of LiteClient_MC_%s did not complete" % name)
     return name, res
